@@ -76,6 +76,16 @@ def contract_mutants(rng, host):
         out.append(("attr-on-ctx", q, ["Invalid usage of Sylvia attribute"]))
         q = _clone(host); _rm(q, hn)["self_text"] = "#[sv::data] &self"
         out.append(("attr-on-self", q, ["Invalid usage of Sylvia attribute"]))
+    # `sv::attr` forwards to an enum variant; the struct messages have none -- wherever the attribute is written
+    for kind in ("instantiate", "migrate"):
+        for above in (0, 1):
+            q = _clone(host)
+            hk = [h for h in c(q)["handlers"] if h["kind"] == kind]
+            if not hk:
+                continue
+            hk[0]["sv_attrs"] = ["doc = \"forwarded\""]
+            hk[0]["sv_attrs_above"] = above
+            out.append((f"attr-on-{kind}-{'above' if above else 'below'}", q, [f"`sv::attr` is not supported for `{kind}`"]))
     q = _clone(host); c(q)["raw_attrs"] = ["#[sv::msg_attr(bogus, derive(Default))]"]
     out.append(("msg_attr-unknown-kind", q, ["Invalid message type"]))
     q = _clone(host); c(q)["raw_attrs"] = ["#[sv::msg_attr(exec)]"]
